@@ -351,17 +351,56 @@ impl State {
 
     fn build_from_file(&mut self, path: Xstr, mode: ContextMode) -> Xresult {
         let s = crate::file::fs_overlay::read_source_file(&path)?;
+        let mark = self.build_mark();
         self.context_open(mode)?;
         self.intern_source(s.into(), Some(path))?;
-        self.build0()?;
+        if let Err(e) = self.build0() {
+            self.build_abort(mark);
+            return Err(e);
+        }
         self.context_close()
     }
 
     fn build_from_source(&mut self, s: Xstr, mode: ContextMode) -> Xresult {
+        let mark = self.build_mark();
         self.context_open(mode)?;
         self.intern_source(s, None)?;
-        self.build0()?;
+        if let Err(e) = self.build0() {
+            self.build_abort(mark);
+            return Err(e);
+        }
         self.context_close()
+    }
+
+    // (nesting depth, pending inputs, data stack height, reverse log length)
+    fn build_mark(&self) -> (usize, usize, usize, usize) {
+        let log_len = self.reverse_log.as_ref().map(|log| log.len()).unwrap_or(0);
+        (self.nested.len(), self.input.len(), self.data_stack.len(), log_len)
+    }
+
+    // A source rejected while it is read or compiled leaves nothing behind:
+    // no unread text, open context, pending flow, half-compiled code or definition.
+    fn build_abort(&mut self, mark: (usize, usize, usize, usize)) {
+        let (depth, inputs, ds_len, log_len) = mark;
+        if self.nested.len() <= depth {
+            return;
+        }
+        // marks taken when this build opened its context
+        let opened = self.nested.get(depth + 1).unwrap_or(&self.ctx).clone();
+        self.nested.truncate(depth + 1);
+        self.ctx = self.nested.pop().unwrap();
+        self.input.truncate(inputs);
+        self.code.truncate(opened.cs_len);
+        self.debug_map.truncate(opened.cs_len);
+        self.dict.truncate(opened.di_len);
+        self.flow_stack.truncate(opened.fs_len);
+        self.return_stack.truncate(opened.rs_len);
+        self.loops.truncate(opened.ls_len);
+        self.special.truncate(opened.ss_ptr);
+        self.data_stack.truncate(ds_len);
+        if let Some(log) = self.reverse_log.as_mut() {
+            log.truncate(log_len);
+        }
     }
 
     pub fn eval_file(&mut self, path: Xstr) -> Xresult {
